@@ -174,10 +174,11 @@ class KBEval:
     to a KB.  Calls to functions with a body in `facts` are evaluated by abstract interpretation of
     that body (straight-line code, if/else joins, no loops)."""
 
-    def __init__(self, facts, env=None, depth=0):
+    def __init__(self, facts, env=None, depth=0, overrides=None):
         self.F = facts
         self.env = dict(env or {})
         self.depth = depth
+        self.overrides = overrides or {}     # callee qualified name -> KB (partitioned unknowns)
 
     def width_of(self, n):
         ti = type_info(n.get('ty'))
@@ -283,6 +284,9 @@ class KBEval:
 
     def call(self, n):
         fn = n.get('fn')
+        if fn in self.overrides:
+            w, _ = self.width_of(n)
+            return self.overrides[fn].resize(w, False)
         if fn and self.F.has_func(fn) and self.depth < 8:
             f = self.F.func(fn)
             env = {}
@@ -290,7 +294,7 @@ class KBEval:
                 ti = type_info(p['ty'])
                 if ti is not None:
                     env[p['id']] = self.ev(a).resize(ti[0], (type_info(a.get('ty')) or (0, False))[1])
-            sub = KBEval(self.F, env, self.depth + 1)
+            sub = KBEval(self.F, env, self.depth + 1, self.overrides)
             r = sub.run_body(f)
             if r is not None:
                 return r
@@ -328,8 +332,14 @@ class KBEval:
             if s.get('e') is not None:
                 rets.append(self.ev(s['e']))
         elif k == 'Assign':
-            self.assign(s['l'], self.ev(s['r']))
+            if type_info(s['l'].get('ty')) is None:
+                return
+            lw = type_info(s['l'].get('ty'))
+            v = self.ev(s['r'])
+            self.assign(s['l'], v.resize(lw[0], (type_info(s['r'].get('ty')) or (0, False))[1]))
         elif k == 'CAssign':
+            if type_info(s['l'].get('ty')) is None:
+                return
             op = s['op'][:-1]
             fake = dict(k='Bin', op=op, l=s['l'], r=s['r'], ty=s.get('cty') or s.get('ty'))
             lw = type_info(s['l'].get('ty'))
@@ -362,8 +372,8 @@ class KBEval:
             if c is not None:
                 self._exec(s['t'] if c else s.get('e'), rets)
             else:
-                e1 = KBEval(self.F, self.env, self.depth)
-                e2 = KBEval(self.F, self.env, self.depth)
+                e1 = KBEval(self.F, self.env, self.depth, self.overrides)
+                e2 = KBEval(self.F, self.env, self.depth, self.overrides)
                 e1._exec(s['t'], rets)
                 e2._exec(s.get('e'), rets)
                 keys = set(e1.env) | set(e2.env)
@@ -373,7 +383,7 @@ class KBEval:
                         self.env[key] = a.join(b)
                     elif key in self.env:
                         del self.env[key]
-        elif k in ('Call', 'Cast', 'Un', 'Bin', 'Null'):
+        elif k in ('Call', 'Cast', 'Un', 'Bin', 'Null', 'For', 'While', 'Do'):
             pass
         else:
             raise AnalysisBroken('known-bits: unsupported statement %s' % k)
